@@ -8,70 +8,9 @@ HERE = os.path.dirname(os.path.abspath(__file__))
 BASELINE = ("cd /repo && /venv/bin/python -m pytest -ra -q -p no:cacheprovider --timeout=900 "
             "--continue-on-collection-errors")
 
-# property -> (level text, level note, technique)
-BUILT = {
- "C02": ("TLC enumerates the bounded tree space exhaustively (root kind x typed holes), checks on the model that "
-         "the implementation-shaped evaluator (C02_EvalImpl) refines the denotation (Eval) in every environment "
-         "of the box, and judges every result recorded from the four real evaluator entry points against the "
-         "denotation (value, exception class, unknown-variable name, agreement of plain/cached/kw variants).",
-         "trusted: CPython semantics as transcribed in spec/PyNum.tla (sanity laws checked by TLC), TLC, the JSON "
-         "boundary; bounded to the generated space (depth <= 2 over all evaluable node kinds, 6 environments); "
-         "values outside the exact 32-bit model are skipped and counted",
-         "TLA+ denotational spec + TLC bounded-exhaustive generation + TLC trace validation of recorded results"),
- "C03": ("TLC enumerates operator programs (every operator x left kind x right kind, nested operator pairs, unary, "
-         "constructor methods, ordering comparisons, call/subscript/attribute), checks on the model whether the "
-         "transcribed operator methods (Build, A-layer) preserve the plain computation (Plain, M-layer) - which "
-         "yields the design-level failure classes before any code runs - and judges every object the real "
-         "operators built against Plain in 7 environments; the transcription's prediction is compared as drift.",
-         "trusted: PyNum.tla, TLC; refusals for boolean operands tolerated; non-commuting witnesses not yet "
-         "modelled (operand order is checked through -, /, //, %, **, <<, >> only)",
-         "TLA+ transcription of the operator methods vs plain-number meaning, TLC-generated programs, TLC-judged "
-         "recorded trees"),
- "C06": ("TLC enumerates the printable fragment (every node kind with every child position open over leaves and one "
-         "representative per kind, slices, tuples, three-level nestings over a reduced alphabet); each tree is printed, "
-         "parsed and printed again by the real code and TLC judges the recorded round trip against the statement: "
-         "parses, same tree after flattening nested sums/products (constants by value), identical second text, same "
-         "value in 7 environments (Eval).",
-         "trusted: PyNum/Eval, TLC; failing cases are attributed to listed (parent, position, child) edges by "
-         "containment (DESIGN 7.2), so a new defect is reported through its minimal witness; the A-layer transcription "
-         "of printer and parser is not part of this check yet",
-         "TLC-generated trees, recorded print/parse/print round trips, TLC-judged against Norm/Eval"),
- "C07": ("TLC fills the operator slots of token skeletons exhaustively (every ordered pair of the 20 binary operators, "
-         "triples, prefix operators and conditional expressions in every operand position, postfix chains, tuples, "
-         "literals, truncated strings); the real parser and the real Python-AST importer are run on every string and "
-         "TLC judges the trees they return by evaluating them (Eval) in 16 environments against CPython's own eval "
-         "of the same text, plus 'whole input consumed or ParseError'.",
-         "trusted: CPython's eval as ground truth (recorded per environment), PyNum/Eval for the meaning of the returned "
-         "tree, TLC; a reference Python grammar in TLA+ (design-level comparison) is not part of this check yet; "
-         "failing strings are attributed to listed operator-pair patterns",
-         "TLC-generated token strings, recorded parser/importer trees and CPython values, TLC-judged by evaluation"),
- "C13": ("TLC enumerates (tree, listed-variable tuple) pairs over the Python-expressible fragment; the real compile(), "
-         "its pickle round trip, to_python_ast + compile/eval, to_evaluatable_python_function + exec, and the from-AST "
-         "importer are run on each and TLC judges every recorded value against Eval in 6 environments (value or "
-         "arithmetic exception class) and the recorded parameter order against 'listed first, rest by name'.",
-         "trusted: PyNum/Eval as the evaluator's meaning (bound to the real evaluator by C02), CPython executing the "
-         "generated code, TLC; logical operators only over boolean operands; paths are excused only for node kinds "
-         "they document as unsupported (NotImplementedError on Comparison/Min/Max/CSE in to-AST)",
-         "TLC-generated trees x argument lists, generated code executed, TLC-judged against the denotation"),
- "C11": ("TLC enumerates the polynomial/rational fragment (three levels over a reduced alphabet) and trees of other "
-         "node kinds over polynomial children, checks ring laws of the normal-form oracle on every generated tree, and "
-         "judges what flatten, both constant folders, the term collector and distribute/expand (commutative, "
-         "non-commutative, with parameters) really returned: value preservation decided per instance by exact "
-         "rational-function normal form (Poly.tla), Eval on a box for non-polynomial kinds, the shape post-conditions "
-         "of the statement (flat, at most one constant, expanded, like terms merged) and 'does not fail on its fragment'.",
-         "trusted: Poly.tla (exact arithmetic over Q with 32-bit overflow guard: guarded cases are skipped and counted), "
-         "PyNum/Eval, TLC; the A-layer transcription of the rewrite algorithms is not part of this check",
-         "TLC-generated inputs, recorded rewrite results, TLC-judged by rational-function normal form and shape predicates"),
- "C15": ("TLC enumerates (expression, target set) pairs and all small integer 2x2 affine systems (entries in a small box, "
-         "unknowns and parameters on both sides), checks on the model that Cramer's solution of every regular "
-         "generated system satisfies it (oracle sanity), and judges what CoefficientCollector and "
-         "solve_affine_equations_for really returned: affineness and reconstruction decided exactly by rational-"
-         "function normal forms, coefficients free of targets, raises on non-affine input, returned assignments "
-         "satisfy every equation identically, singular systems refused.",
-         "trusted: Poly.tla, TLC; a refusal of a syntactically non-obvious affine input and a solver refusal of a "
-         "solvable system are tabulated, not judged; 3x3 systems are not generated",
-         "TLC-generated expressions/systems, recorded results, TLC-judged by exact normal forms and determinants"),
-}
+# property -> {text, note, technique}: kept in manifest_entries.json
+BUILT = {k: (v["text"], v["note"], v["technique"])
+         for k, v in json.load(open(os.path.join(HERE, "manifest_entries.json"))).items()}
 
 REASON_NOT_YET = "check not built yet in this round (planned, see DESIGN.md section 13)"
 
